@@ -555,7 +555,11 @@ func (E *Engine) selftest(prop string) []map[string]any {
 				return
 			}
 			cmd := exec.Command(self, "check", "-prop", prop, "-tier", "quick", "-repo", scratch)
-			cmd.Env = append(os.Environ(), "GOVC_DRY=1")
+			mode := "canary"
+			if c.Benign {
+				mode = "benign"
+			}
+			cmd.Env = append(os.Environ(), "GOVC_DRY="+mode)
 			o, _ := cmd.CombinedOutput()
 			n := strings.Count(string(o), "DRY-VIOLATION")
 			rec["violations_reported"] = n
